@@ -35,7 +35,8 @@ PROPS = {"C14": dict(
     ],
     rule="cases = pages enumerated by TLC as the product of {8 OpenGraph shapes (none, complete website/article/profile, one "
          "required property missing) x field patterns} x {schema.org shapes (none, top-level Article, Article with nested "
-         "Person/Organization, Article inside an item of another type, only unsupported items) x image forms x field patterns} "
+         "Person/Organization, Article inside an item of another type, only unsupported items) x image forms x field patterns x "
+         "{no rel=author element, one with text, only ones without text} x {author, creator property}} "
          "x {IE Reading View patterns} x opt-out state, the field patterns rotating present/empty/absent so that every field "
          "sees all 27 status triples; each built as a real page with the blocks in a rotating order; non-trivial = the real "
          "MarkupInfo took its fields from at least two different sources; counters win_<field>_<source> show which source won",
@@ -52,7 +53,7 @@ PROPS = {"C14": dict(
         "required OpenGraph properties with empty content; og:image:* without og:image; only one of profile first/last name; "
         "duplicate properties; custom RDFa prefix names (the standard og/article/profile names are declared via html prefix, "
         "head prefix, xmlns or not at all); https:// itemtypes; an Article item that is itself an itemprop of an unsupported "
-        "item; top-level Person/Organization items; rel=author links; the creator property; copyrightHolder without publisher; "
+        "item; top-level Person/Organization items; rel=author in other letter case; copyrightHolder without publisher; "
         "ImageObject without url; IE images without caption; IE title without a <title> element; IE_RM_OFF values other than "
         "true/false and other spellings of its name",
         "unsupported item types carry only property names that map to no MarkupInfo field",
